@@ -62,6 +62,11 @@ func newEffAnalysis(p *core.Prog) *effAnalysis {
 	return &effAnalysis{p: p, idx: p.SiteIndex(p.VTA()), sums: map[*ssa.Function]*fnSummary{}}
 }
 
+// newEffAnalysisIdx analyses another program (canary) with its own call-site index.
+func newEffAnalysisIdx(p *core.Prog, idx core.SiteCallees) *effAnalysis {
+	return &effAnalysis{p: p, idx: idx, sums: map[*ssa.Function]*fnSummary{}}
+}
+
 // stdlib / external behaviour table, by FuncID prefix
 type extKind int
 
